@@ -90,8 +90,8 @@ func (c *CredentialsStore) Load(r io.Reader) error {
 		return err
 	}
 
-	var cred Credential
 	for dec.More() {
+		var cred Credential
 		err := dec.Decode(&cred)
 		if err != nil {
 			return err
